@@ -198,6 +198,10 @@ class Engine(EngineBase, AccessMixin, StmtMixin, CallMixin):
             else:
                 env[n] = self.fresh_of_type(p, n, t)
         self.inputs = dict(env)
+        self.policy_self = None
+        pc_ = self.policy_conf()
+        if pc_ is not None and ci is not None and pc_['class'] in repo.mro(ci.qname) and isinstance(env.get('self'), VRef):
+            self.policy_self = env['self']
         p.env = {n: env[n] for n in env}
         sfc = self.contract_fc(c, None)
         sfc.ghost_ok = True
@@ -237,6 +241,7 @@ class Engine(EngineBase, AccessMixin, StmtMixin, CallMixin):
         if feasible(q, None, 1000):
             self.covers += 1
         self.oblige(q, c.key + '/canary', z3.BoolVal(False), 'canary', assume_after=False)
+        self.policy_escape(q, v, 'returned')
         sfc = self.contract_fc(c, old)
         sfc.ghost_ok = True
         for (ecls, wt) in conds:
